@@ -403,6 +403,9 @@ def strategy(draw, tier):
         bk['amp_threshes'] = draw(st.sampled_from([[0.5, 1], [1, 2], [0.8, 1.5]]))
     if draw(st.booleans()):
         bk['min_n_cycles'] = draw(st.integers(1, 6))
+    if draw(st.integers(0, 2)) == 0:
+        # a nested options dict of the caller's: filter settings for the amplitude detector
+        bk['filter_kwargs'] = draw(st.sampled_from([{'n_cycles': 3}, {'filter_type': 'fir'}, {'avg_type': 'mean'}, {'n_cycles': 4, 'filter_type': 'fir'}]))
     th_amp = {'burst_fraction_threshold': draw(st.sampled_from([0.5, 0.9, 1]))}
     if draw(st.booleans()):
         th_amp['min_n_cycles'] = draw(st.integers(1, 4))
